@@ -1,9 +1,64 @@
-import LLTD.Model.Block
-import LLTD.Spec.Block
+/-
+  C03 — An accepted Discover is answered by exactly one correct Hello.
+-/
+import LLTD.Lemmas.Obs
 
 namespace LLTD.C03
 open LLTD LLTD.Spec
 
-theorem placeholder_layout : X.sizeofDemux = 32 := by decide
+/-- exactly one transmit, and it is this Hello frame: sourced from the interface's address, broadcast, the
+    Discover's service type, sequence number 0, naming the Discover's real source / Ethernet source as
+    current / apparent mapper and carrying the generation of that very Discover — in EVERY state
+    (whatever Hellos were heard before, whatever the stored generations of either service) -/
+theorem hello_frame (c : Cfg) (g : Glob) (w : World) (st : St) (img : List Nat) (hc : CfgOk c)
+    (hd : isDiscover img = true) (hacc : mapperMatches st (fRealSrc img) = true) (hm : (w.malloc c.mtuEff).2 = true) :
+    ∃ ok, (parseFrameSt c g w st img).fx.filter (fun x => match x with | .send .. => true | _ => false) =
+      [Fx.send ok c.idx (helloFrame c g (fDiscGen img) (fTos img) (fRealSrc img) (fEthSrc img))] := by
+  obtain ⟨hl, htos, hop⟩ := (isDiscover_iff img).mp hd
+  rw [parseFrameSt_discover c g w st img htos hop, if_pos hacc]
+  have hfx := (answerHello_fx c g w (preStep st img) img hc hl hm).1
+  rw [helloGen_preStep] at hfx
+  refine ⟨((w.malloc c.mtuEff).1.send).2, ?_⟩
+  split <;> simp [hfx]
+
+/-- the property predicate holds of the model's reaction to every accepted Discover -/
+theorem accepted_discover_answered (c : Cfg) (g : Glob) (w : World) (st : St) (img : List Nat) (hc : CfgOk c)
+    (hmac : c.failMac = false) (hb : isBytes img)
+    (hd : isDiscover img = true) (hacc : mapperMatches st (fRealSrc img) = true) (hm : (w.malloc c.mtuEff).2 = true) :
+    holdsC03Rx (obsOf c g img (parseFrameSt c g w st img).fx) = true := by
+  obtain ⟨hl, htos, hop⟩ := (isDiscover_iff img).mp hd
+  have h1 : (LLTD.fRealSrc img).length = 6 := slice_length _ _ _ (by simp; omega)
+  have h2 : (LLTD.fEthSrc img).length = 6 := slice_length _ _ _ (by simp; omega)
+  have hfx := (answerHello_fx c g w (preStep st img) img hc hl hm).1
+  rw [helloGen_preStep] at hfx
+  have hgen : LLTD.fDiscGen img % 65536 = LLTD.fDiscGen img := by
+    apply Nat.mod_eq_of_lt
+    unfold LLTD.fDiscGen
+    exact unbe_slice_two_lt img _ hb
+  have hown : c.ourMac = c.mac := by simp [Cfg.ourMac, hmac]
+  have hsends : sends (obsOf c g img (parseFrameSt c g w st img).fx).fx =
+      [helloFrame c g (LLTD.fDiscGen img) (LLTD.fTos img) (LLTD.fRealSrc img) (LLTD.fEthSrc img)] := by
+    rw [parseFrameSt_discover c g w st img htos hop, if_pos hacc]
+    unfold obsOf
+    split
+    · simp only [hfx]; rfl
+    · simp only [hfx]; rfl
+  unfold holdsC03Rx
+  have hd' : isDiscover (obsOf c g img (parseFrameSt c g w st img).fx).frame = true := hd
+  simp only [hd', hsends, Bool.not_true, Bool.false_or, List.isEmpty_cons, Bool.false_eq_true, if_false]
+  rw [decodeHello_helloFrame c g _ _ _ _ hc h1 h2]
+  simp [obsOf, hown, spec_fTos, spec_fRealSrc, spec_fEthSrc, spec_gen, hgen]
+
+/-- a Discover that is not accepted gets no reply and changes nothing -/
+theorem refused_discover_silent (c : Cfg) (g : Glob) (w : World) (st : St) (img : List Nat)
+    (hd : isDiscover img = true) (hrej : mapperMatches st (fRealSrc img) = false) :
+    parseFrameSt c g w st img = { st := st, w := w, fx := [] } := by
+  obtain ⟨_, htos, hop⟩ := (isDiscover_iff img).mp hd
+  rw [parseFrameSt_discover c g w st img htos hop]
+  simp [hrej]
+
+/-- non-vacuity: a concrete wired configuration satisfies the hypotheses -/
+example : CfgOk { mac := [2, 0xaa, 0xbb, 0xcc, 0xdd, 1], mtu := 1500 } :=
+  ⟨rfl, rfl, rfl, rfl, by decide, by decide⟩
 
 end LLTD.C03
